@@ -24,6 +24,14 @@ CLAIMS = {
         "The arithmetic clause of the property is a statement about exactly this table; the 'replace a constant by an input' reading through the emitted circuit is not decided.",
    technique="path-enumerating term extraction + idiom normalisation + table classification over ast; taint-based site discovery",
    ref="DESIGN.md §2 C11"),
+ "C14": dict(
+   text="Static analysis over the analysis stage (parser, semantic analyzer, symbol table, diagnostics): an inventory of the 24 guard shapes that recognise the documented "
+        "static rules, each required to reach an error-severity diagnostic or raise (a recognised guard that only warns = downgraded; an anchor without the guard = not enforced); "
+        "error() counts or raises on every CFG path; both pipelines use raise_errors=True and gate each stage; no broad handler swallows; mains write the result only after the success "
+        "test; statement lists are visited on every path; type tables are exhaustive over the grammar's type keywords; checks cover every AST slot of their subject. "
+        "Decides that each rule is enforced in the single visitor every context goes through, not 'all embeddings' as such.",
+   technique="guard-chain extraction of diagnostic sites + role predicates, CFG must-pass-through, grammar/table exhaustiveness",
+   ref="DESIGN.md §2 C14"),
 }
 NA_DEFAULT = "check not built yet (build phase in progress); see DESIGN.md for the planned rules"
 NA = {}
